@@ -830,7 +830,7 @@ pub fn run_tree<F: AdFrame>(flavor: Flavor, src: &mut Source, obs: &mut Observer
                     if fmt == 0 {
                         static_stack_op::<F>(op, obs)?;
                     } else {
-                        crate::with_sweep_format!((fmt - 1) as usize, static_stack_op, op, obs)?;
+                        crate::with_sweep_format!((fmt - 1) as usize, sweep_stack_op, op, obs)?;
                     }
                 }
                 _ => break Some(op),
@@ -1274,6 +1274,61 @@ where
             check_eq!(obs, it.next(), sample(j), "static.interleaved", "interleaved sample {} of the original iterator ({})", j, F::NAME);
         }
     }
+    Ok(())
+}
+
+/// The lean version of the static stacks used for the format sweep (88 formats): three stacks that
+/// together pass through every amplitude adaptor, unary and binary, for 7 frames across the end of a
+/// 5-frame source.  Kept small on purpose — it is instantiated once per format.
+fn sweep_stack_op<F: AdFrame>(op: Op, obs: &mut Observer) -> Result<(), Violation> {
+    let q1 = op.b.rem_euclid(6);
+    let q2 = op.c.rem_euclid(6);
+    let gains = [4i64, 16, -12, 2, 8, -4]; // /8
+    let (g1, g2) = (gains[q1 as usize], gains[q2 as usize]);
+    let offs = [0i64, 7, -9, 40, -33, 64]; // /1024
+    let (o1, o2) = (offs[q1 as usize], offs[q2 as usize]);
+    let id = 2 + 16 * 5; // leaf amplitude < 1/32
+    let len = 5u64;
+    let src_f = |i: u64| if i < len { F::leaf(id, i) } else { F::EQUILIBRIUM };
+    let sgn_f = |i: u64| if i < len + 1 { F::sleaf(id + 1, i) } else { <F::SF as dasp_frame::Frame>::EQUILIBRIUM };
+    let (main, main_pulls) = ProbeSignal::with(id, Some(len), F::leaf as fn(u32, u64) -> F);
+    let (sgn, sgn_pulls) = ProbeSignal::with(id + 1, Some(len + 1), F::sleaf as fn(u32, u64) -> F::SF);
+    let (flt, _) = ProbeSignal::with(3, None, F::fleaf as fn(u32, u64) -> F::FF);
+    let t = F::sparam(o1.abs() + 20);
+    let mut s = main
+        .scale_amp(F::fparam(g1))
+        .offset_amp(F::sparam(o2))
+        .add_amp(sgn)
+        .clip_amp(t)
+        .mul_amp(flt)
+        .scale_amp_per_channel(F::fpc(q1))
+        .offset_amp_per_channel(F::spc(q2 + 100))
+        .delay((q1 % 3) as usize);
+    let delay = (q1 % 3) as u64;
+    for n in 0..7u64 {
+        let want: F = if n < delay {
+            F::EQUILIBRIUM
+        } else {
+            let i = n - delay;
+            src_f(i)
+                .scale_ref(F::fparam(g1))
+                .offset_ref(F::sparam(o2))
+                .add_ref(sgn_f(i))
+                .clip_ref(t)
+                .mul_ref(F::fleaf(3, i))
+                .mul_ref(F::fpc(q1))
+                .add_ref(F::spc(q2 + 100))
+        };
+        // a combining adaptor is exhausted as soon as any input is; the delay keeps it live while silent
+        let exhausted = n >= delay + len;
+        check_eq!(obs, s.is_exhausted(), exhausted, "sweep.is_exhausted", "{}: before frame {}", F::NAME, n);
+        let got = s.next();
+        check_eq!(obs, got, want, "sweep.frame", "{} through every amplitude adaptor (params {}, {}), frame {}", F::NAME, q1, q2, n);
+        let pulled = (n + 1).saturating_sub(delay);
+        check_eq!(obs, (main_pulls.get(), sgn_pulls.get()), (pulled, pulled), "sweep.pulls", "{}: source pulls after frame {}", F::NAME, n);
+    }
+    let _ = g2;
+    obs.probe(P_STATIC_STACK);
     Ok(())
 }
 
